@@ -173,6 +173,11 @@ def make_seed(n):
     return _p.Tract(text, **kw)
 
 
+def created_parsed(n):
+    kind, text, kw = SEEDS[n]
+    return bool(kw.get('parse_qq')) if kind == 'tract' else not kw.get('wait_to_parse')
+
+
 def ops_for(n):
     return PLSS_OPS if SEEDS[n][0] == 'plss' else TRACT_OPS
 
@@ -324,6 +329,21 @@ def check_transition(acc, n, hist, name, before, obj0):
             return None
         acc.guard('nocommit_checked')
         return o, after
+    if name in ('parse()', 'parse_tracts()') and created_parsed(n) and all(h in ('parse()', 'parse_tracts()') or ops[h][1] == 'nc' for h in hist):
+        # re-parsing with unchanged settings (no config assignment, no keyword since creation) reproduces exactly the same results
+        plss = SEEDS[n][0] == 'plss'
+        if plss and name == 'parse()':
+            # (a committed parse() rebuilds the tracts from the object's settings: tracts that an earlier parse_tracts() parsed into
+            # lots / aliquots although parse_qq is off legitimately come back unparsed)
+            ready = 'parse_tracts()' not in hist
+        else:
+            ready = (not plss) or all(t.parse_complete for t in obj0.tracts) or not obj0.tracts
+        if ready and after != before:
+            diff = [i for i, (a, b) in enumerate(zip(before, after)) if a != b]
+            acc.violation('reparse_changes_results', f"C14:reparse_changes_results:{SEEDS[n][0]}:{name}:fields{diff}", case,
+                          got=[after[i] for i in diff][:2], exp=[before[i] for i in diff][:2],
+                          note=f"settings unchanged since creation; snapshot fields {diff} differ after the re-parse")
+            return None
     if kind == 'cfg':
         # a config assignment applies every setting that the assigned text spells out (also an explicit 'off' / 0); what the
         # text leaves out keeps its value (documented behaviour of the setter)
